@@ -19,6 +19,11 @@ impl<T> ArrayQueue<T> {
         self.shadow.touch();
         self.real.force_push(v)
     }
+    #[allow(dead_code)]
+    pub(crate) fn push(&self, v: T) -> Result<(), T> {
+        self.shadow.touch();
+        self.real.push(v)
+    }
     pub(crate) fn pop(&self) -> Option<T> {
         self.shadow.touch();
         self.real.pop()
@@ -29,5 +34,15 @@ impl<T> ArrayQueue<T> {
     pub(crate) fn len(&self) -> usize {
         self.shadow.touch();
         self.real.len()
+    }
+    #[allow(dead_code)]
+    pub(crate) fn is_empty(&self) -> bool {
+        self.shadow.touch();
+        self.real.is_empty()
+    }
+    #[allow(dead_code)]
+    pub(crate) fn is_full(&self) -> bool {
+        self.shadow.touch();
+        self.real.is_full()
     }
 }
